@@ -178,6 +178,8 @@ def run_case(case):
         return run_cell(case)
     if case["kind"] == "junk":
         return run_junk(case)
+    if case["kind"] == "spool":
+        return run_spool(case)
     if case["kind"] == "interleaved-writers":
         return run_interleaved_writers(case)
     return run_interleaved(case)
@@ -501,6 +503,65 @@ def run_interleaved(case):
     return {"ev": 2, "h": h, "nt": True, "out": "interleaved:%s" % ("ok" if not viol else "bad"), "viol": viol}
 
 
+def run_spool(case):
+    """ONE file object of the caller (a w+b spool) holds first a stream in codec c1, is read through RecordReader(fileobj=), is then
+    truncated and refilled with other records in codec c2 and read again: the second reading is decided by the bytes that are there now."""
+    from flow.record import RecordReader, RecordWriter
+
+    h = jhash(case)
+    c1, c2 = case["codecs"]
+    d = os.environ["VERIF_SCRATCH"]
+    viol = []
+    blobs = []
+    wants = []
+    for k, codec in enumerate((c1, c2)):
+        _n[0] += 1
+        p = os.path.join(d, "c11s-%d-%d.records%s" % (os.getpid(), _n[0], CODECS[codec]))
+        records = [recs.build_record(rs("c/s%d" % k, [["string", "s"], ["varint", "n"]], ["'%s'" % (chr(97 + k) * 20), str(i + 100 * k)])) for i in range(5 + k)]
+        w = RecordWriter(p)
+        for r in records:
+            w.write(r)
+        w.flush()
+        w.close()
+        blobs.append(open(p, "rb").read())
+        wants.append(ident(records))
+        os.unlink(p)
+    _n[0] += 1
+    sp = os.path.join(d, "c11spool-%d-%d.tmp" % (os.getpid(), _n[0]))
+    f = open(sp, "w+b")
+    try:
+        for k in range(2):
+            rd = got = None
+            f.seek(0)
+            f.truncate()
+            f.write(blobs[k])
+            f.flush()
+            f.seek(0)
+            try:
+                rd = RecordReader(fileobj=f)
+                got = list(rd)  # (the reader is deliberately not closed: the spool belongs to the caller)
+                if ident(got) != wants[k]:
+                    viol.append(("C11:spool-reused:%s-then-%s:reading-%d-differs" % (c1, c2, k + 1), case, {"got": len(got), "want": len(wants[k])}))
+            except Exception as e:  # noqa: BLE001
+                viol.append(("C11:spool-reused:%s-then-%s:reading-%d-raises-%s" % (c1, c2, k + 1, type(e).__name__), case, {"error": repr(e)[:200]}))
+            rd = got = None
+            import gc
+
+            gc.collect()  # (a decompressing wrapper that is dropped may close the file it wraps: then the caller opens it again)
+            if f.closed:
+                f = open(sp, "w+b")
+    finally:
+        try:
+            f.close()
+        except Exception:  # noqa: BLE001
+            pass
+        try:
+            os.unlink(sp)
+        except OSError:
+            pass
+    return {"ev": 2, "h": h, "nt": True, "out": "spool:%s" % ("ok" if not viol else "bad"), "viol": viol}
+
+
 def run_interleaved_writers(case):
     """Two writers of the same codec open at once, written alternately (no shared compressor state may exist)."""
     from flow.record import RecordWriter
@@ -559,6 +620,8 @@ def cases(tier):
         yield {"kind": "foreign", "how": how}
     for name in junk_inputs():
         yield {"kind": "junk", "name": name}
+    for c1, c2 in itertools.product(CODECS, repeat=2):
+        yield {"kind": "spool", "codecs": [c1, c2]}
     for codec in CODECS:
         yield {"kind": "interleaved", "codec": codec}
         yield {"kind": "interleaved-writers", "codec": codec}
